@@ -327,6 +327,10 @@ func (rs *rangeState) candidate(c *smt.Ctx, v *smt.Term, k int, rnd *uint64) *sm
 			if uf, ok := rs.ufacts[v]; ok && r.lo.Sign() < 0 {
 				// unsigned facts only: sample in the unsigned window
 				r = ivl{lo: big.NewInt(0), hi: bsub1(pow2big(v.Sort.W))}.meet(uf)
+			} else if !ok && r.lo != nil && r.lo.Sign() < 0 && k%2 == 1 {
+				// no unsigned facts: every other attempt samples the unsigned window [0, 2^w) instead of the
+				// signed one (whose log-uniform draws cluster at -2^(w-1), i.e. at 2^(w-1) read as unsigned)
+				r = ivl{lo: big.NewInt(0), hi: bsub1(pow2big(v.Sort.W))}
 			}
 		}
 		lo, hi := r.lo, r.hi
